@@ -13,7 +13,10 @@ class P(vlib.Prop):
             "path mutations of every type below users' homes, on the homes, on package-shipped directories and files, through symlinks, recursive, on etc/passwd, etc/group, etc/apko.json) over synthetic signed packages "
             "(with and without etc/passwd, etc/group) go through the REAL pipeline: build.New + BuildLayer + oci.BuildImageFromLayer on apkfs.NewMemFS() and on tarfs.New(), and the apko CLI built from the tree; "
             "the emitted layer is untarred by the harness's own reader and the validators judge passwd/group, config.User, every home ('already existed' = before this build's declarations and earlier accounts) "
-            "and every declared mutation not touched by a later one; the whole layer is compared with the pipeline model. A case is non-trivial when something is configured; distinct = distinct case terms.")
+            "and every declared mutation not touched by a later one; the whole layer is compared with the pipeline model (ImageConfiguration.Validate in front of it, as in build.New). "
+            "Session 6 corpora: configured groups colliding with package-provided entries in every way (same name / same gid / both / identical / twice), account fields holding ':', newlines and blanks (Validate's verdict is observed and compared with its model), "
+            "`permissions` entries placed before later mutations of the same nodes, recursive walks over link entries that point out of the directory, paths with trailing slashes, empty-file through link chains. "
+            "A case is non-trivial when something is configured; distinct = distinct case terms.")
     stages = (
         dict(name="accounts", cmd="c13", args=lambda t, s: ["-stage", "accounts"]),
         dict(name="paths", cmd="c13", args=lambda t, s: ["-stage", "paths"]),
@@ -30,17 +33,22 @@ class P(vlib.Prop):
     level_text = ("Theorems in Properties/C13.v hold for every account list, run-as name, pre-existing passwd/group text, tree and mutation sequence (unbounded), about an "
                   "executable model of mutateAccounts / mutatePaths / the step order of buildImage over a heap-of-nodes model of the two in-memory filesystems (tar-entry-backed files of tarfs included): "
                   "passwd/group = old ++ configured and the text-level round trip of the codec; run-as = first match; homes in full (the created node is what Stat finds, 0700 and owner, parents 0755, nothing else changes, "
-                  "also at the end of the whole loop); per mutation: mode/owner of what the path resolves to, kind of what sits at the path, coverage of the recursive walk, and a frame theorem (kinds and link targets never change, "
-                  "changed modes/owners are declared ones, a simple mutation changes at most the node its path resolves to); fuel of walk/dump proved sufficient on well-formed heaps; constants, formats, the mutator table and the "
+                  "also at the end of the whole loop); parsed entries are well-formed up to line length, so the written file re-reads as old ++ configured for every clean configuration; colliding groups are appended, never merged or dropped; "
+                  "per mutation: mode/owner of what the path resolves to, kind of what sits at the path, empty-file at path level (entry = resolved node, empty, regular when created, package-backed files included), the EXACT set of nodes a recursive "
+                  "directory mutation touches (below the directory through non-link entries plus the targets of link entries; declared values inside, untouched outside), a frame theorem (kinds and link targets never change, "
+                  "changed modes/owners are declared ones, a simple mutation changes at most the node its path resolves to) and, for arbitrary lists, application in order (a node keeps what a mutation gave it unless a later one touches it; "
+                  "the later one wins); well-formedness is preserved by every operation, mutation, list, by mutateAccounts and etc/apko.json, so only the initial tree is constrained; fuel of walk/dump proved sufficient on well-formed heaps; "
+                  "two refutations on the model with replays on the code (account fields with separators, empty-file with a trailing slash); constants, formats, the mutator table, Validate's character tests, mutateEmptyFile's target expression and the "
                   "order of buildImage's steps are regenerated from the source on every run; the model is tied to the code by differential comparison of error/no error, passwd/group text and parsed entries, run-as, "
                   "every path's kind/mode/uid/gid/target and the tar layer — for the two functions alone and for whole builds through build.New/BuildLayer and the CLI — and the validators are run on what the real code produced.")
     level_note = ("trusted: Coq kernel, goextract, Go harness/printer and its tar reader/resolver, harness/synthrepo; modelled not verified: the Go text of accounts.go/paths.go/passwd.go/group.go/build_implementation.go and of the two in-memory "
                   "filesystems, archive/tar, fs.WalkDir, the apk installer (its output is taken as the pipeline model's start tree); correspondence is differential testing, not proof; "
-                  "not proved: empty-file at path level, exact touched set of a recursive walk, wf preservation for Remove/Link/openFile/Symlink")
+                  "not proved: empty-file when the path is the name of a symbolic link (openFile and getNode follow a final link by different rules), base-image builds (accounts step skipped; API only, the YAML loader refuses accounts and paths there)")
     design_ref = "DESIGN.md 7 C13"
     modelled_not_verified = ("mutateAccounts, userToUserEntry, mutatePaths and the five mutators, UserEntry/GroupEntry Parse/Write, the memfs/tarfs operations they call and the order of buildImage's steps are "
                              "modelled by hand (Model/C13Fs.v, Model/Accounts.v, Model/PathMut.v, Model/C13Build.v); default shell/home/modes, the homeless marker, the two Fprintf formats, field "
                              "counts, separators, maxLinks, Create's mode, the list of buildImage's calls in source order, etc/apko.json's path and mode, the empty-member guard of GroupEntry.Parse and tarfs' truncation behaviour "
-                             "are regenerated from the source; Validate, WriteSupervisionTree, installBusyboxLinks, installCharDevices and BuildImageFromLayers (config.User := RunAs) are exercised by the e2e stage only")
+                             "are regenerated from the source, as are the strings.ContainsAny tests of Validate and the target expression of mutateEmptyFile; Validate's accounts part is modelled (Proofs/AccountsParsed.v: validate_accounts) and compared on every accounts case; "
+                             "WriteSupervisionTree, installBusyboxLinks, installCharDevices and BuildImageFromLayers (config.User := RunAs) are exercised by the e2e stage only")
 
 PROP = P()
